@@ -196,15 +196,17 @@ var (
 )
 
 func vxNewSeamCache(defExp time.Duration, ec EvictedCallback) *xsyncMap {
-	c := &xsyncMap{items: &vxSeam[interface{}]{}, stop: make(chan struct{})}
-	c.defaultExpiration.Store(defExp)
-	c.evictedCallback.Store(ec)
+	c := newXsyncMap(Config{CleanupInterval: 0}).(*xsyncMapWrapper).xsyncMap
+	c.items = &vxSeam[interface{}]{}
+	c.SetDefaultExpiration(defExp)
+	c.SetEvictedCallback(ec)
 	return c
 }
 
 func vxNewSeamCacheOf(defExp time.Duration, ec EvictedCallbackOf[string, interface{}]) *xsyncMapOf[string, interface{}] {
-	c := &xsyncMapOf[string, interface{}]{items: &vxSeam[itemOf[interface{}]]{}, stop: make(chan struct{})}
-	c.defaultExpiration.Store(defExp)
-	c.evictedCallback.Store(ec)
+	c := newXsyncMapOf[string, interface{}](ConfigOf[string, interface{}]{CleanupInterval: 0}).(*xsyncMapOfWrapper[string, interface{}]).xsyncMapOf
+	c.items = &vxSeam[itemOf[interface{}]]{}
+	c.SetDefaultExpiration(defExp)
+	c.SetEvictedCallback(ec)
 	return c
 }
